@@ -169,6 +169,19 @@ CHECKS = {
             'two circuits; histories up to 5-6 calls; normalisation = declaration order and instance-unique hexadecimal suffixes.',
             'TLC model checking of generator call histories; replay of histories; TLC validation of recorded answers',
             'DESIGN.md section 4, C19'),
+    'C02': ('translation_validation',
+            'ProgSpace.tla defines the supported method-body grammar (if/elif/else nests, match/case, ternaries, and/or/not, '
+            'comparisons, + - * // % & | ^ ~ << >>, a local, an integer state attribute, a constructor argument, put/prepare/get); TLC '
+            'generates all one-statement programs over depth-1 expressions, all operator-pair nesting shapes (precedence / '
+            'associativity) and a seeded random sample of larger bodies. Each is rendered with minimal parentheses to a py4hw.Logic '
+            'subclass (one class per program, instantiated at several widths and constructor arguments), transpiled (an exception = '
+            'refusal), simulated by the real Simulator on in-domain input sequences, and the emitted module is executed by TLC '
+            '(VerilogSem) and must give the same outputs and state-variable trajectory. Text that is not Verilog is a violation. The '
+            'repository behavioural blocks (UART serializer/deserializer, ClockSyncFSM, CMDRequest/Response, AutoReset) are fixed programs.',
+            'domain membership (intermediates in 0..2^32-1, shifts < 32, non-zero divisors) is decided by a reference interpreter of '
+            'the generated program that is never used for verdicts; VerilogSem is two-state.',
+            'per-program translation validation: programs generated by TLC from a grammar specification, emitted Verilog executed by TLC against the real Python execution',
+            'DESIGN.md section 4, C02'),
 }
 
 PENDING = {}
